@@ -25,7 +25,14 @@ def scratch_copy():
 
 
 def apply_edit(root, m):
-    """m['edits'] = [{file, old, new, count?}]; returns None or a reason it does not apply."""
+    """m['edits'] = [{file, old, new, count?}]; returns None or a reason it does not apply.
+    m['base'] (optional) = id of a stored behaviour-preserving refactoring (benign_seeded/<id>/patch.diff) applied first:
+    the edit then breaks the property in code of *that* shape -- a test of the rules on the shapes they were taught to accept."""
+    if m.get("base"):
+        patch = os.path.join(runner.VERIF, "benign_seeded", m["base"], "patch.diff")
+        r = subprocess.run(["patch", "-p1", "-s", "-i", patch], cwd=root, stdout=subprocess.PIPE, stderr=subprocess.STDOUT, text=True)
+        if r.returncode != 0:
+            return "base refactoring %s does not apply: %s" % (m["base"], r.stdout[-200:])
     for e in m["edits"]:
         p = os.path.join(root, e["file"])
         try:
